@@ -602,7 +602,7 @@ def bisect_feature(i):
         return "negative-index"
     if max(start, end) >= I32:
         return "index>=2^31"
-    if start + end >= I32:
+    if start + end >= I32 or 2 * end >= I32:  # (lo + hi) can reach 2 * end while the search narrows
         return "index-sum>=2^31"
     if start < off or end >= off + len(ids):
         return "range-beyond-table"
@@ -926,7 +926,9 @@ def run(ctx):
         tasks += t
         for k, v in counts.items():
             expected[k] = expected.get(k, 0) + v
+    t_setup = ctx.elapsed()
     pmap_acc(work, tasks, ctx.acc, jobs=ctx.jobs)
+    ctx.coverage["phases_wall_s"] = {"build+task-list": round(t_setup, 1), "enumeration": round(ctx.elapsed() - t_setup, 1)}
     if "harness_error" in ctx.acc.notes:
         raise HarnessError(ctx.acc.notes["harness_error"])
 
